@@ -678,9 +678,7 @@ func ParseExpression(expr sqlparser.Expr) (logical.Expression, error) {
 		return logical.NewConstant(octosql.NewBoolean(bool(expr))), nil
 
 	case sqlparser.ValTuple:
-		if len(expr) == 1 {
-			return ParseExpression(expr[0])
-		}
+		// A parenthesized single expression is a ParenExpr, a ValTuple with one element is a one element list, i.e. x IN (1).
 		expressions := make([]logical.Expression, len(expr))
 		for i := range expr {
 			subExpr, err := ParseExpression(expr[i])
